@@ -148,7 +148,7 @@ impl MeCabOovPlugin {
 
             // cost(prev.right_id, next.left_id): left ids index the second dimension of the
             // connection matrix, right ids the first one
-            if oov.left_id as usize > grammar.conn_matrix().num_right() {
+            if oov.left_id as usize >= grammar.conn_matrix().num_right() {
                 return Err(SudachiError::InvalidDataFormat(
                     0,
                     format!(
@@ -159,7 +159,7 @@ impl MeCabOovPlugin {
                 ));
             }
 
-            if oov.right_id as usize > grammar.conn_matrix().num_left() {
+            if oov.right_id as usize >= grammar.conn_matrix().num_left() {
                 return Err(SudachiError::InvalidDataFormat(
                     0,
                     format!(
